@@ -47,6 +47,10 @@ RULE = (
     "truncated to k windows, outer completion at the k-th window's emission; no buffer differential for these cases); "
     "(ii) a third of the closing / left-duration observables are reactivex.timer(dt) built without a scheduler, which "
     "must run on the scheduler the pipeline was subscribed with.  "
+    "Round 5: a quarter of the toggle closings / group_join left durations fire synchronously inside their own subscribe "
+    "call whatever scheduler is passed (a logged source emitting at subscribe, like an already completed Subject or a "
+    "BehaviorSubject): the window's rule says close immediately, so it must be a zero-length window closed at the instant "
+    "it opens (as for dt=0 it may or may not straddle the source burst of that very instant).  "
     "Non-trivial: >=2 windows with >=1 element each (first subscription).  Distinct = distinct case JSON."
 )
 ASSUMPTIONS = [
